@@ -122,7 +122,7 @@ def file_cmd(rng, names):
     if r < 37: return ["@@touch " + f] if rng.below(4) else ["@@epoch " + f]
     if r < 38: return ["@@writefile " + f + " " + hx(rng.choice(WORDS) + "\n")]
     if r < 39: return ["se " + rng.choice(["wa", "nowa", "aw", "noaw"])] if rng.below(3) == 0 else [rng.choice(["1d|e! " + f, "e! " + f + "|1d", "$d|b #", "e #|$d", "1d|e " + f])]
-    if r < 40: return [rng.choice(["b!", "b !", "b !", "b ~"])]
+    if r < 40: return [rng.choice(["b!", "b !", "b !", "b ~"])] if rng.below(2) else [rng.choice(["w !cat", "w !true", "1w !cat", "w !tr a-z A-Z", "%w !sed 1q", "w !", "w !nosuch"])]
     # edits and whole / partial writes chained on one command line (one undo step, one sequence number)
     e = lambda: rng.choice(["1d", "$d", "s/o/0/", "1,2d", "%s/a/b/g", "1pu", "u", "redo", "1co$", "$m0"])
     w = lambda: rng.choice(["w", "w", "w", "1w", "%w", "w " + f, "w! " + f])
@@ -165,8 +165,21 @@ def epoch_cases(rng, count):
         out.append(case(files, ["f0"], lines))
     return out
 
+def pipe_write_cases(rng, count):
+    """`:w !cmd` pipes the text to a command: the buffer is not thereby saved, whether it has a name or not"""
+    out = []
+    for _ in range(count):
+        unnamed = rng.below(2) == 0
+        files = [("f0", rand_content(rng, 3) or "x\n"), ("f1", None)]
+        lines = []
+        if rng.below(3): lines += ["a", rng.choice(WORDS) or "t", "."]
+        lines.append(rng.choice(["w !cat", "w !true", "%w !cat", "1,$w !cat", "w !tr a-z A-Z", "1w !cat", "w !", "w !cat|1d"]))
+        lines += [rng.choice(["q", "q", "e f1", "b", "x", "w", "w !cat"]), "b", rng.choice(["q", "e f1", "w f1", "1d"]), "b", "q!"]
+        out.append(case(files, [] if unnamed else ["f0"], lines))
+    return out
+
 def buf_cases(rng, count, nfiles=3, maxcmds=14):
-    out = full_table_cases(rng, max(3, count // 150)) + epoch_cases(rng, max(4, count // 100))
+    out = full_table_cases(rng, max(3, count // 150)) + epoch_cases(rng, max(4, count // 100)) + pipe_write_cases(rng, max(8, count // 60))
     for _ in range(count):
         k = 2 + rng.below(nfiles - 1) if nfiles > 2 else 2
         names = ["f%d" % i for i in range(k)]
@@ -208,8 +221,8 @@ def fault_grid(rng):
                 out.append(case([("fa", fa), ("fb", "other\n" if rng.below(2) else None)], ["fa"], lines))
     return out
 
-SUB_PATS = ["a", "^a", "a$", "^", "$", "x*", "a*", "o", "(o)(o)", "(a)|(b)", "[ab]+", "é", "é*", ".", "\\<f", "o\\>", "^a*", "b*$", "(f)(o*)", "a|aa", "(a*)(b*)", "日", "  *", "\\.", "\\/"]
-SUB_REPS = ["X", "", "-", "[\\0]", "\\1", "\\2\\1", "<\\1|\\2>", "\\\\", "é", "\\n", "&", "\\9", "x\\0y\\0"]
+SUB_PATS = ["a", "^a", "a$", "^", "$", "x*", "a*", "o", "(o)(o)", "(a)|(b)", "[ab]+", "é", "é*", ".", "\\<f", "o\\>", "^a*", "b*$", "(f)(o*)", "a|aa", "(a*)(b*)", "日", "  *", "\\.", "\\/", "a\\\n", "\\\n", "o*\\\n", "^\\\n"]
+SUB_REPS = ["X", "", "-", "[\\0]", "\\1", "\\2\\1", "<\\1|\\2>", "\\\\", "é", "\\n", "&", "\\9", "x\\0y\\0", "\\\n", "x\\\ny", "\\\n\\\n", "\\0\\\n"]
 SUB_LINES = ["aaa", "ééa", "foo bar", "abab", "", "a", "baac", "日本語", "  x  y", "a.b/c", "foo", "aXa", "oo", "fooo foo"]
 
 def c14_cases(rng, count):
